@@ -86,7 +86,7 @@ def render_obj(o, strs):
 def render_heap(g):
     strs = Interner()
     objs = "[" + "; ".join(render_obj(o, strs) for o in g["objs"]) + "]"
-    cells = "[" + "; ".join("Some %d%%nat" % c for c in (g.get("cells") or [])) + "]"
+    cells = "[" + "; ".join("None" if c < 0 else "Some %d%%nat" % c for c in (g.get("cells") or [])) + "]"
     return "{| objs := %s; cellv := %s |}" % (objs, cells)
 
 
